@@ -1144,7 +1144,7 @@ def fam_extcmd(rng, sid0, n):
         cC = Cmd("+C", hx=True, hr=True, hw=True, vars=[Var(UINT, 1, RW, "c", mem=b"\x07")])
         cU = Cmd("+U", hr=rng.random() < 0.5, vars=[Var(UINT, 2, RW, "u", mem=b"\x05\x00")])
         cH = Cmd("+H", hx=True)
-        x1 = Cmd(rng.choice(["+U", "+X", "+C", "+"]), hr=rng.random() < 0.6, ht=rng.random() < 0.4, desc=rng.choice([None, "ext"]),
+        x1 = Cmd(rng.choice(["+U", "+X", "+C", "+"]), hr=rng.random() < 0.6, ht=rng.random() < 0.4, desc=rng.choice([None, "ext"]), implicit=rng.random() < 0.3,
                  vars=[Var(rng.choice([INT, UINT, HEX]), rng.choice([1, 2, 4]), rng.choice([RW, RO, WO]), rng.choice([None, "x"]), vr=rng.random() < 0.3,
                            mem=bytes(rng.randrange(256) for _ in range(4))[:1])] if False else
                       [Var(UINT, 1, rng.choice([RW, RO, WO]), rng.choice([None, "x"]), vr=rng.random() < 0.3, mem=bytes([rng.randrange(256)]))])
@@ -1185,4 +1185,65 @@ def fam_extcmd(rng, sid0, n):
         sc.hexit(0)
         sc.settle(8000)
         out.append(sig(sc, qcap, x1.name, shared))
+    return out
+
+
+# --------------------------------------------------------------------------- names equal ignoring case (registration order decides)
+
+def fam_samename(rng, sid0, n):
+    """Two or three commands whose names are equal ignoring case (or literally equal), every implicit_write / disable mask,
+    every registration order (enumerated by i); each spelling is typed with every suffix.  'First in registration order' (C02),
+    also for implicit-write commands, and what a disabled twin hides (C09)."""
+    out = []
+    spell = [["+dial", "+DIAL", "+Dial"], ["D", "d", "D"], ["+q1", "+Q1", "+q1"]]
+    for i in range(n):
+        k = 2 + (i % 2)
+        names = spell[(i // 2) % 3][:k]
+        perm = list(itertools.permutations(range(k)))[(i // 6) % (2 if k == 2 else 6)]
+        impmask = (i // 3) % (1 << k)
+        dismask = (i // 5) % (1 << k) if i % 4 == 3 else 0
+        cmds = []
+        for j in perm:
+            imp = bool(impmask >> j & 1)
+            cmds.append(Cmd(names[j], hw=True, hr=not imp and rng.random() < 0.7, hx=not imp and rng.random() < 0.7, ht=not imp and rng.random() < 0.3, implicit=imp,
+                            disable=bool(dismask >> j & 1), vars=[Var(UINT, 1, RW, None, mem=bytes([j + 1]))] if rng.random() < 0.4 else []))
+        longer = Cmd(names[0] + "x", hx=True, hw=True)
+        pos = rng.randrange(len(cmds) + 1)
+        table = cmds[:pos] + [longer] + cmds[pos:]
+        sc = Scenario(sid0 + i, table, qcap=1, bufsize=rng.choice([32, 64]), grain=rng.choice(["step", "compact"]), meta={"family": "fam_samename"})
+        lines = []
+        for nm in sorted(set(names + [names[0].swapcase(), names[0] + "x", names[0] + "X", names[0][:-1]])):
+            for sfx in ["", "?", "=?", "=1", "123", "=\"x\"", "=", "?1"]:
+                lines.append(("AT" + nm + sfx + rng.choice(["\n", "\r\n"])).encode())
+        rng.shuffle(lines)
+        line_block(sc, lines[:28])
+        out.append(sig(sc, tuple(names), perm, impmask, dismask))
+    return out
+
+
+# --------------------------------------------------------------------------- every byte value at every position of a numeric / hex argument
+
+def fam_bytes(rng, sid0, n):
+    """For each numeric type and for hex buffers: a well-formed argument in which one position is replaced by each byte value
+    1..255 (LF, CR and ',' excepted) - 'matches the type's grammar' quantifies over bytes, not over ASCII.  Enumerated: scenario i
+    covers byte slice i % 4 of kind (i // 4) % 4; 16 scenarios cover everything."""
+    out = []
+    kinds = [("bufhex", BUFHEX, 2, "1b2C"), ("hexnum", HEX, 2, "0x1b"), ("uint", UINT, 1, "12"), ("int", INT, 1, "-12")]
+    for i in range(n):
+        name, vtype, size, good = kinds[(i // 4) % 4]
+        lo = 64 * (i % 4)
+        var = Var(vtype, size, RW, "v", vw=rng.random() < 0.3, mem=bytes([0xEE] * size))
+        other = Var(UINT, 1, RW, "w", mem=b"\x09")
+        cmd = Cmd("+B", hw=rng.random() < 0.7, vars=[var, other] if rng.random() < 0.5 else [var])
+        sc = Scenario(sid0 + i, [cmd], qcap=1, bufsize=32, grain="compact", meta={"family": "fam_bytes"})
+        for b in range(max(lo, 1), lo + 64):
+            if b in (10, 13, 44):
+                continue
+            for p in range(len(good)):
+                txt = good[:p].encode() + bytes([b]) + good[p + 1:].encode()
+                sc.feed(b"AT+B=" + txt + (b",3" if len(cmd.vars) > 1 and rng.random() < 0.5 else b"") + b"\n")
+            sc.settle(20000)
+            if b % 16 == 0:
+                sc.setmem(0, 0, bytes([0xEE] * size))
+        out.append(sig(sc, name, lo))
     return out
